@@ -20,6 +20,7 @@ import (
 	"time"
 
 	"github.com/buildbuildio/pebbles/common"
+	"github.com/buildbuildio/pebbles/gqlerrors"
 	"verifharness/sched"
 )
 
@@ -98,7 +99,13 @@ func startRun(s *sched.Sched, n int, outcome []string, userDelay func()) *run {
 				}
 				s.Note("u.mapend/"+strconv.Itoa(i), outcome[i]) // MapEnd(i, o)
 				if outcome[i] == "err" {
-					return 0, fmt.Errorf("e%d", i)
+					// the item's identity travels in Path; messages are identical in every other run,
+					// because two failures with the same message are still two errors
+					msg := "boom"
+					if n%2 == 1 {
+						msg = fmt.Sprintf("e%d", i)
+					}
+					return 0, &gqlerrors.Error{Message: msg, Path: []interface{}{i}, Extensions: map[string]interface{}{"item": i}}
 				}
 				return i, nil
 			},
@@ -113,9 +120,11 @@ func startRun(s *sched.Sched, n int, outcome []string, userDelay func()) *run {
 			})
 		r.acc = acc
 		for _, e := range errs {
-			k, err := strconv.Atoi(strings.TrimPrefix(e.Message, "e"))
-			if err != nil {
-				k = -1
+			k := -1
+			if len(e.Path) == 1 {
+				if x, ok := e.Path[0].(int); ok {
+					k = x
+				}
 			}
 			r.errs = append(r.errs, k)
 		}
@@ -435,6 +444,8 @@ func cmdStress(args []string) {
 		n := rng.Intn(*maxn + 1)
 		if k%7 == 0 {
 			n = rng.Intn(4)
+		} else if k%23 == 0 {
+			n = 60 + rng.Intn(300) // large fan-outs (beyond any fixed pool size)
 		}
 		outcome := make([]string, n)
 		pErr := rng.Intn(4) // 0: never, else 1 in pErr+1
